@@ -566,8 +566,28 @@ pub fn determinism_jobs(rng: &mut Rng, dir: &Path) -> Option<(Vec<Job>, String)>
         "rewrite:\n  - matcher:\n      payee: \"(?P<payee>[A-Za-z]+) .*\"\n      category: \"(?P<payee>[A-Z][a-z]+)\"\n    account: Expenses:Matched\n  - matcher:\n      - payee: \"(?P<code>SBB)\"\n        category: \"(?P<code>Tr)avel\"\n      - category: \"Income\"\n    account: Income:Salary\n    pending: true\n",
     );
     let (cfg, src) = case.write(dir).ok()?;
-    let jobs = vec![Job { family: "import-csv-multi-matcher-rules", argv: vec!["import".into(), "--config".into(), cfg.to_string_lossy().into_owned(), src.to_string_lossy().into_owned()] }];
-    Some((jobs, format!("=== config\n{}=== csv\n{}", case.config_yaml, case.csv_text)))
+    let mut jobs = vec![Job { family: "import-csv-multi-matcher-rules", argv: vec!["import".into(), "--config".into(), cfg.to_string_lossy().into_owned(), src.to_string_lossy().into_owned()] }];
+    let mut desc = format!("=== config\n{}=== csv\n{}", case.config_yaml, case.csv_text);
+    // the same for ISO Camt053, where every regex matcher of an AND-map can capture
+    let mut camt = CamtCase::generate(rng, PARTY_NAMES);
+    for e in camt.entries.iter_mut() {
+        for d in e.details.iter_mut() {
+            d.creditor = Some(rng.pick_str(PARTY_NAMES).to_string());
+            d.debtor = Some(rng.pick_str(PARTY_NAMES).to_string());
+            d.remittance = Some(format!("ref {} {}", rng.below(1000), rng.pick_str(PARTY_NAMES)));
+            d.additional_info = Some(format!("info {}", rng.pick_str(PARTY_NAMES)));
+        }
+    }
+    camt.render();
+    camt.config_yaml.push_str(
+        "rewrite:\n  - matcher:\n      creditor_name: \"(?P<payee>.+)\"\n      debtor_name: \"(?P<payee>.+)\"\n      remittance_unstructured_info: \"ref (?P<code>\\\\d+) (?P<payee>.+)\"\n      additional_transaction_info: \"info (?P<payee>.+)\"\n    account: Expenses:Matched\n",
+    );
+    let cdir = dir.join("camt");
+    if let Ok((ccfg, csrc)) = camt.write(&cdir) {
+        jobs.push(Job { family: "import-camt-multi-capture-rule", argv: vec!["import".into(), "--config".into(), ccfg.to_string_lossy().into_owned(), csrc.to_string_lossy().into_owned()] });
+        desc.push_str(&format!("=== camt config\n{}=== camt xml\n{}", camt.config_yaml, camt.xml));
+    }
+    Some((jobs, desc))
 }
 
 // ---------------------------------------------------------------------------------------
